@@ -149,26 +149,19 @@ func ProcessSearchTracesRequest(ctx *fasthttp.RequestCtx, myid int64) {
 			continue
 		}
 
+		// A trace whose root spans do not agree on one start and one end time is
+		// left out, like a trace whose root spans do not agree on the service or
+		// the operation below; the other traces of the page are still listed.
 		traceStartTime, err := convertTimeToUint64(startTime)
 		if err != nil {
-			log.Errorf("ProcessSearchTracesRequest: failed to convert startTime: %v", err)
-			ctx.SetStatusCode(fasthttp.StatusInternalServerError)
-			_, err := ctx.WriteString("Invalid startTime: " + err.Error())
-			if err != nil {
-				log.Errorf("ProcessSearchTracesRequest: Error writing to context: %v", err)
-			}
-			return
+			log.Errorf("ProcessSearchTracesRequest: failed to convert startTime for traceId=%v: %v", traceId, err)
+			continue
 		}
 
 		traceEndTime, err := convertTimeToUint64(endTime)
 		if err != nil {
-			ctx.SetStatusCode(fasthttp.StatusInternalServerError)
-			log.Errorf("ProcessSearchTracesRequest: failed to convert endTime: %v", err)
-			_, err := ctx.WriteString("Invalid endTime: " + err.Error())
-			if err != nil {
-				log.Errorf("ProcessSearchTracesRequest: Error writing to context: %v", err)
-			}
-			return
+			log.Errorf("ProcessSearchTracesRequest: failed to convert endTime for traceId=%v: %v", traceId, err)
+			continue
 		}
 
 		// Only process traces which start and end in this period [startEpoch, endEpoch]
